@@ -601,7 +601,10 @@ class StrategyBase(Node):
         if self._original_children_are_present:
             # if we have universe_tickers defined, limit universe to
             # those tickers
-            valid_filter = list(set(universe.columns).intersection(self._universe_tickers))
+            # keep the data's column order: a set intersection would order
+            # the universe (hence trades and results) by string hash
+            tickers = set(self._universe_tickers)
+            valid_filter = [c for c in universe.columns if c in tickers]
 
             funiverse = universe[valid_filter].copy()
 
